@@ -119,7 +119,7 @@ MInit ==
 InU(u) == u \in URLs
 
 \* ---- clause evaluation at an event (0 = fine); clause numbers are mapped to properties by the driver
-VisitBound == O.maxredir + 1 + O.auth
+VisitBound == O.maxredir + 1 + (IF O.auth > 0 THEN 1 ELSE 0)
 
 ReqViol(e) ==
   IF e.kind = "robots"
